@@ -77,10 +77,22 @@ Inductive res (A : Type) := Ok (a : A) | Err (e : errk).
 Arguments Ok {A} a.
 Arguments Err {A} e.
 
+(* Variant switches for the recorded findings (DESIGN 2.5): [false] = the
+   behaviour of the code as found (defect present), [true] = the behaviour after
+   the proposed repair.  The harness measures which one the current source
+   exhibits and passes it into every correspondence case. *)
+Record variant := mkVar {
+  v_grow : bool;        (* __call__ result space built from the shape of the RESULT *)
+  v_negaxis : bool;     (* negative reduce axes normalised for the remaining partition axes *)
+  v_boolouter : bool }. (* outer: no weighting passed for non-numeric (bool) results *)
+Definition as_found : variant := mkVar false false false.
+Definition repaired : variant := mkVar true true true.
+
 Section Model.
 Context {T : Type} `{Num T}.
 (* dtype conversion of one value (astype / assignment into another dtype) *)
 Variable cast : dt -> dt -> T -> T.
+Variable V : variant.
 
 (* ---------------- store of buffers ---------------- *)
 Record narr := mkArr { a_dt : dt; a_shape : list nat; a_data : list T }.
@@ -254,6 +266,10 @@ Fixpoint wrap_call (st : store) (sp : tspace) (nout : nat) (outs : list (option 
         | Some given, _ => Ok given
         | None, RRBuf id =>
             let a := rd st id in
+            if v_grow V && (nout =? 1)%nat then
+              (* repaired: the space takes the shape of the result (rule of the other methods) *)
+              if ts_valid (meth_space sp a) then Ok (OpTens (meth_space sp a) id) else Err EValue
+            else
             (* out_space.element(res): no copy, shape must equal the space shape *)
             if negb (ts_valid (call_space sp nout a)) then Err EValue
             else if shape_eqb (a_shape a) (ts_shape sp) then Ok (OpTens (call_space sp nout a) id)
@@ -323,11 +339,14 @@ Definition ndim (ds : dspace) : nat := length (ts_shape (ds_ts ds)).
 (* the axes that REMAIN after reduce, as the code computes them (no
    normalisation of negative axes) *)
 Definition zmem (z : Z) (l : list Z) : bool := existsb (Z.eqb z) l.
+(* repaired variant: a + ndim for negative a *)
+Definition znorm (nd : nat) (z : Z) : Z :=
+  if v_negaxis V && (z <? 0)%Z then (z + Z.of_nat nd)%Z else z.
 Definition kept_axes (nd : nat) (a : axkw) : list nat :=
   match a with
   | AxAbsent | AxNone => seq 1 (nd - 1)
-  | AxInt z => filter (fun i => negb (zmem (Z.of_nat i) [z])) (seq 0 nd)
-  | AxTuple l => filter (fun i => negb (zmem (Z.of_nat i) l)) (seq 0 nd)
+  | AxInt z => filter (fun i => negb (zmem (Z.of_nat i) [znorm nd z])) (seq 0 nd)
+  | AxTuple l => filter (fun i => negb (zmem (Z.of_nat i) (map (znorm nd) l))) (seq 0 nd)
   end.
 Definition pick {A} (d : A) (l : list A) (idx : list nat) : list A := map (fun i => nth i l d) idx.
 Definition dummy_ax : axisd := mkAx 0 0 0 0 0.
@@ -436,11 +455,13 @@ Definition disc_ufunc (NP : npsem) (st : store) (ds : dspace) (nout : nat) (m : 
                           let ts :=
                             match ts_w (ds_ts d1), ts_w (ds_ts d2) with
                             | WConst c1, WConst c2 =>
-                                mkTS (ts_shape rsp) (ts_dt rsp) (WConst (c1 * c2)) (ts_exp rsp)
+                                if v_boolouter V && dt_eqb (ts_dt rsp) DBool then rsp
+                                else mkTS (ts_shape rsp) (ts_dt rsp) (WConst (c1 * c2)) (ts_exp rsp)
                             | _, _ => rsp
                             end in
                           (* a weighting is refused for the non-numeric dtype bool *)
-                          if (match ts_w (ds_ts d1), ts_w (ds_ts d2), ts_dt rsp with
+                          if negb (v_boolouter V) &&
+                             (match ts_w (ds_ts d1), ts_w (ds_ts d2), ts_dt rsp with
                               | WConst _, WConst _, DBool => true | _, _, _ => false end)
                           then Err EValue else
                           match mk_dspace axes ts with
